@@ -64,6 +64,49 @@ PROPS = {
         assumptions=["step weights within 0..100", "metadata other than the two conversion annotations is copied verbatim (not modelled)"],
         explanation="round-trip and totality theorems over all objects of the modelled shape",
     ),
+    "C02": dict(
+        engines=[dict(name="rolloutsm", quick=1200, thorough=60000, shard=400, trivial_tags=["no-change", "status-not-written"])],
+        rule="seeded generator of (Rollout spec: 1-6 canary steps with int/percent replicas and optional pause durations, paused, disabled, deleting, finalizer, rollback-in-batch "
+             "annotation; persisted status: every phase, every Progressing reason, sub-status with every step state incl. unknown, step index, nextStepIndex incl. jumps and out-of-range "
+             "values (0, negative, len+1, 99), stale/current/empty rollout hash, every finalising step, elapsed/fresh timestamps; CloneSet: missing, inconsistent generation, rolled back, "
+             "new revision, rollout-id label; BatchRelease: absent, matching, stale partition, nil partition, foreign rollout-id, older plan, inconsistent, not ready, deleting); one real "
+             "RolloutReconciler.Reconcile per case on the fake client; non-trivial = the model writes a status or BatchRelease change; distinct = distinct input JSON",
+        trusted=["hook VerifNewReconciler (build tag verif)", "the workload is read through the real ControllerFinder and projected (revisions, in-progress, in-rollback)",
+                 "rollout hash abstracted to current/stale/empty; timestamps abstracted to elapsed/fresh"],
+        assumptions=["canary strategy over a CloneSet without traffic routing (the traffic manager's calls return immediately without routing configured); the traffic part of "
+                     "'step k's traffic rule was applied' is C03's", "approval is an external status write"],
+        explanation="C02 theorems over all statuses; same gating boolean evaluated on the real reconcile's result",
+    ),
+    "C09": dict(
+        engines=[dict(name="rolloutsm", quick=1200, thorough=60000, shard=400, trivial_tags=["no-change", "status-not-written"]),
+                 dict(name="brexec", quick=600, thorough=30000, shard=400, trivial_tags=["status-unchanged"]),
+                 dict(name="labelpatch", quick=300, thorough=10000, shard=400, trivial_tags=["no-write"]),
+                 dict(name="convert", quick=300, thorough=10000, shard=300, trivial_tags=[])],
+        rule="rolloutsm engine (see C02) with arbitrary nextStepIndex values; brexec, labelpatch, convert engines for the other crash surfaces; every reconcile/call runs under recover()",
+        trusted=["hooks VerifNewReconciler"],
+        assumptions=["validation half of C09 (what the validating webhook accepts/rejects) is not yet modelled: see level_note",
+                     "a BatchRelease owned by a Rollout carries a batchPartition inside its own plan (hand-edited BatchReleases are outside the property)"],
+        explanation="no-panic theorems for the Rollout reconcile (every nextStepIndex), the label patcher and the conversions; no_panic clauses on the implementation",
+    ),
+    "C10": dict(
+        engines=[dict(name="rolloutsm", quick=1200, thorough=60000, shard=400, trivial_tags=["no-change", "status-not-written"])],
+        rule="seeded generator of (Rollout spec: 1-6 canary steps with int/percent replicas and optional pause durations, paused, disabled, deleting, finalizer, rollback-in-batch "
+             "annotation; persisted status: every phase, every Progressing reason, sub-status with every step state incl. unknown, step index, nextStepIndex incl. jumps and out-of-range "
+             "values (0, negative, len+1, 99), stale/current/empty rollout hash, every finalising step, elapsed/fresh timestamps; CloneSet: missing, inconsistent generation, rolled back, "
+             "new revision, rollout-id label; BatchRelease: absent, matching, stale partition, nil partition, foreign rollout-id, older plan, inconsistent, not ready, deleting); one real "
+             "RolloutReconciler.Reconcile per case on the fake client; non-trivial = the model writes a status or BatchRelease change; distinct = distinct input JSON",
+        trusted=["as C02"],
+        assumptions=["dispatch and order of writes within a reconcile; the traffic effects of the cancellation tasks are C04's"],
+        explanation="rollback/supersession dispatch theorems; dispatch clause evaluated on the real reconcile's result",
+    ),
+    "C18": dict(
+        engines=[dict(name="rolloutsm", quick=1200, thorough=60000, shard=400, trivial_tags=["no-change", "status-not-written"]),
+                 dict(name="brexec", quick=600, thorough=30000, shard=400, trivial_tags=["status-unchanged"])],
+        rule="rolloutsm and brexec engines with deleting objects in every phase, with and without finalizer",
+        trusted=["hooks VerifNewReconciler"],
+        assumptions=["the TrafficRouting controller's finalizer (candidate finding F7) is not yet modelled: see level_note"],
+        explanation="finalizer-guard theorems for Rollout and BatchRelease controllers; guard clauses on the implementation",
+    ),
     "C11": dict(
         engines=[dict(name="brexec", quick=1200, thorough=60000, shard=400, trivial_tags=["status-unchanged"])],
         rule="seeded generator of (BatchRelease spec: plan, batchPartition incl. nil and beyond the plan, failureThreshold, deleting, finalizer; persisted status: every phase incl. "
@@ -88,7 +131,7 @@ PROPS = {
     ),
 }
 
-HOOK_COMMITS = []
+HOOK_COMMITS = ["bf5febd", "cd696c4"]
 NOT_APPLICABLE = []
 
 MANIFEST_TEXT = {
@@ -134,6 +177,33 @@ MANIFEST_TEXT = {
         note="Pass-through groups are opaque digests (a dropped field inside one changes the digest and is caught by the correspondence, but the model does not "
              "name it). A v1beta1 step with traffic and no replicas reads back with replicas = traffic (v1alpha1's meaning of a weight-only step); stated in beta_rmw.",
         design_ref="DESIGN.md section 9, C20"),
+    "C02": dict(
+        text="Proof: for one Rollout reconcile and EVERY spec, persisted status, workload and BatchRelease observation: while rolling without a pending user request the step "
+             "cursor either stays or moves along the gated path (upgrade done only when the BatchRelease carries exactly this step's plan and partition, has observed it and reports "
+             "Ready; pause left only through the elapsed duration or a 100%% last step; next step/completion only from StepReady), and a paused rollout writes nothing and keeps its "
+             "cursor. The Gallina reconcile is compared with the real RolloutReconciler.Reconcile on generated states on every run; the gating boolean is evaluated on the real result.",
+        note="Single-reconcile theorems over arbitrary persisted states (so they hold across restarts between any two writes); the history-level statement with ghost variables is "
+             "not built. Canary strategy over CloneSet without traffic routing; blue-green manager not modelled.",
+        design_ref="DESIGN.md section 9, C02"),
+    "C09": dict(
+        text="Proof (controller half): for every Rollout status satisfying the controller's own invariants and EVERY integer nextStepIndex the Rollout reconcile model does not panic; "
+             "the label patcher and the API conversions are total. Each model is tied to the code by its engine, which runs the real code under recover(). One crash found this way "
+             "was repaired (F5); F2 and F10 are the corresponding repairs in the patcher and the conversions.",
+        note="Partial: the validating webhook's structural promises (non-empty/non-decreasing steps, immutability while progressing) are not modelled yet; candidate findings F13, "
+             "F16, F17 are not decided by this check.",
+        design_ref="DESIGN.md section 9, C09"),
+    "C10": dict(
+        text="Proof (dispatch layer): a direct rollback switches the reconcile to Cancelling without touching the BatchRelease, the cancellation order starts with "
+             "RouteTrafficToStable and resumes/releases the workload only afterwards; a newer revision deletes the BatchRelease first and resets the status to step one only once it "
+             "is gone. Tied to the real Reconcile by the rolloutsm engine; the dispatch clause is evaluated on the real result.",
+        note="The effect of each cancellation task on Services and routes (traffic really back on stable) is C04's automaton; blue-green refusal of supersession is not modelled.",
+        design_ref="DESIGN.md section 9, C10"),
+    "C18": dict(
+        text="Proof: the Rollout controller drops its finalizer only when the Terminating condition already reports Completed, the BatchRelease controller only for a deleting "
+             "object in phase Completed (which C11 ties to a successful Finalize). Both reconcile models are compared with the real reconcilers on deleting objects in every phase.",
+        note="Partial: the TrafficRouting controller (candidate finding F7: finalizer removed before cleanup) is not modelled yet; faults between teardown calls are covered "
+             "only as 'any persisted state'.",
+        design_ref="DESIGN.md section 9, C18"),
     "C11": dict(
         text="Proof: for one BatchRelease reconcile on a partition-style CloneSet and for EVERY spec, persisted status and workload observation: Ready is entered only when "
              "the observed workload satisfies the readiness predicate for that batch, the batch cursor never advances beyond batchPartition, Completed is reported only by "
